@@ -12,7 +12,7 @@ import (
 // swarm configuration of one run
 type swarm struct {
 	tabs, multibyte, crlf, ellipsisInText bool
-	bareCR, blobs, manyLines              bool
+	bareCR, blobs, manyLines, bom         bool
 	longLines                             bool
 	giant                                 bool
 	faults                                []string // enabled fault kinds
@@ -164,6 +164,7 @@ func Generate(t *core.Tape, opt core.RunOpt, agg *core.Agg) *Case {
 	sw.bareCR = t.Chance(1, 6)
 	sw.blobs = t.Chance(1, 4)
 	sw.manyLines = t.Chance(1, 5)
+	sw.bom = t.Chance(1, 8)
 	if !faultFree {
 		for _, f := range allFaults {
 			if t.Chance(1, 2) {
@@ -185,7 +186,11 @@ func Generate(t *core.Tape, opt core.RunOpt, agg *core.Agg) *Case {
 			// line numbers that change their width inside the excerpt window: 9|10, 99|100
 			nl = []int{9, 10, 11, 12, 99, 100, 101, 103}[t.Draw(8)]
 		}
-		f := File{Name: fmt.Sprintf("/sim/p/f%d.go", i), Content: core.Text(genContent(t, sw, limit, nl))}
+		content := genContent(t, sw, limit, nl)
+		if sw.bom && t.Chance(1, 2) {
+			content = "\xef\xbb\xbf" + content // a UTF-8 byte order mark: three bytes that go/token counts in line 1's columns
+		}
+		f := File{Name: fmt.Sprintf("/sim/p/f%d.go", i), Content: core.Text(content)}
 		lines, _ := splitLines([]byte(f.Content))
 		for _, l := range lines {
 			lineCounts[i] = append(lineCounts[i], len(l))
